@@ -131,7 +131,10 @@ def convert(
         else:
             to = Path(outname).suffix
 
-    if to in {".c", ".h", "c"}:
+    # Targets may be given as a language name or as a file suffix
+    to = {"c": ".c", "py": ".py", "python": ".py"}.get(to, to)
+
+    if to in {".c", ".h"}:
         gotran2c.main(
             fname=fname,
             suffix=to,
@@ -142,7 +145,7 @@ def convert(
             stiff_states=stiff_states,
             delta=delta,
         )
-    if to in {".py", "python", "py"}:
+    if to in {".py"}:
         gotran2py.main(
             fname=fname,
             suffix=to,
@@ -152,6 +155,7 @@ def convert(
             verbose=verbose,
             stiff_states=stiff_states,
             delta=delta,
+            backend=gotran2py.Backend.jax if jax else gotran2py.Backend.numpy,
         )
 
     if to in {".ode"}:
